@@ -490,7 +490,8 @@ def check_C01(sc, v, tier, seed, replay):
         counts = {"reg": nue, "pdu": 0, "svc": 0, "rel": 0, "dereg": 0}
         opts = {"mnc_len": 2 + i % 2, "use_opc": i % 2 == 0, "gnb_bits": [22, 24, 27, 32, 25, 31][i % 6], "name_len": [7, 1, 150, 2, 75][i % 5],
                 "imsi_len": [15, 15, 13, 14, 12, 11][i % 6],      # MSIN lengths 10, 9, 8, 8, 7, 5: odd and even digit counts
-                "big_amf_id": i % 3 == 0}                         # an AMF-UE-NGAP-ID that needs five octets
+                "big_amf_id": i % 3 == 0,                         # an AMF-UE-NGAP-ID that needs five octets
+                "free_msin": i % 2 == 0}                          # subscriber blocks that cross a multiple of 10^4
         scn, text = online.make_scenario(rnd, counts, opts=opts)
         jobs.append(("reg%02d" % i, scn, text))
     runs = online.run_many(sc, emu, jobs, parallel=8)
